@@ -478,6 +478,8 @@ def without_class_names(d):
 
 def model_verdicts(drv, dump, el, v):
     """the Lean model's verdict for one call (None when the driver cannot say)"""
+    if core.outside_additional_properties_model(dump):
+        return None
     try:
         pats, fmts = core.elem_patterns_formats(el)
         texts = set()
